@@ -11,5 +11,6 @@ cargo build --release -p vcheck 2>&1 | tail -2
   CARGO_TARGET_DIR=../target-cfg-std  cargo build --release -q --features std 2>/dev/null
   CARGO_TARGET_DIR=../target-cfg-ser  cargo build --release -q --features std,serialize 2>/dev/null
   CARGO_TARGET_DIR=../target-cfg-bad  cargo check --release -q --features serialize 2>/dev/null || true )
-( cd sendsync && CARGO_TARGET_DIR=../target-cfg-sendsync cargo check --release -q 2>/dev/null )
+( cd sendsync
+  for f in "" "--features std" "--features std,serialize"; do CARGO_TARGET_DIR=../target-cfg-sendsync cargo check --release -q $f 2>/dev/null; done )
 echo "setup done"
